@@ -131,6 +131,7 @@ func Load(dir string, overlay map[string][]byte, tags string, patterns []string)
 		e.pbPkgs[p] = true
 	}
 	e.noopPkgs["k8s.io/klog/v2"] = true
+	e.noopPkgs["google.golang.org/grpc/health"] = true // the health endpoint is not the subject of any property
 	registerOverrides(e)
 	e.LoadTime = time.Since(t0)
 	return e, nil
